@@ -134,6 +134,64 @@ def attach(ctx) -> None:
     for r in res:
         if r["status"] in ("MISSED", "FALSE-ALARM"):
             ctx.rep.error(f"self-test {r['id']}: {r['status']} {r.get('detail', '')}")
+    _attach_patches(ctx)
+
+
+def _scan_patch(args):
+    from tools import seed_scan
+
+    label, patch, prop, base = args
+    _l, out, err = seed_scan.scan((label, patch, [prop], {prop: base}))
+    if err:
+        return label, None, err
+    v = (out or {}).get(prop, {})
+    return label, sorted(v.get("rules", [])), "; ".join(v.get("errors", []))[:200] or None
+
+
+def _attach_patches(ctx) -> None:
+    """Thorough tier, part 2: the independently written patches kept under /verif - breaking changes for this property
+    (seeded/, must be reported) and behaviour-preserving refactorings (benign/, should be silent) - are applied to a
+    scratch copy of the committed tree (`git archive HEAD`; /repo's working tree is not touched) and this property's
+    rules are evaluated on each."""
+    import json
+    import subprocess
+
+    here = os.path.dirname(os.path.dirname(os.path.abspath(__file__)))
+    try:
+        subprocess.run(["git", "-C", "/repo", "rev-parse", "HEAD"], capture_output=True, check=True)
+        from tools import seed_scan
+    except Exception as e:  # no git metadata: this part cannot run
+        ctx.rep.extra["patch_scan"] = {"skipped": f"{type(e).__name__}: {e}"}
+        return
+    _p, base = seed_scan.baseline(ctx.prop)
+    work = []
+    sd, bd = os.path.join(here, "seeded"), os.path.join(here, "benign")
+    for d in sorted(os.listdir(sd)) if os.path.isdir(sd) else []:
+        mp = os.path.join(sd, d, "meta.json")
+        if os.path.exists(mp) and json.load(open(mp)).get("property") == ctx.prop:
+            work.append(("seeded/" + d, os.path.join(sd, d, "patch.diff"), ctx.prop, base))
+    for d in sorted(os.listdir(bd)) if os.path.isdir(bd) else []:
+        if os.path.exists(os.path.join(bd, d, "patch.diff")):
+            work.append(("benign/" + d, os.path.join(bd, d, "patch.diff"), ctx.prop, base))
+    with ProcessPoolExecutor(max_workers=16) as ex:
+        res = list(ex.map(_scan_patch, work))
+    seeded = {l: r for l, r, _e in res if l.startswith("seeded/")}
+    benign = {l: r for l, r, _e in res if l.startswith("benign/")}
+    errs = {l: e for l, _r, e in res if e}
+    ctx.rep.extra["patch_scan"] = {
+        "explanation": "independent sub-agent patches applied to a scratch copy of the committed tree: seeded = breaking changes for this "
+                       "property (each must be reported), benign = behaviour-preserving refactorings (alarms listed are known limits)",
+        "seeded_reported_by": seeded,
+        "benign_silent": sorted(l for l, r in benign.items() if not r and l not in errs),
+        "benign_alarms": {l: r for l, r in benign.items() if r},
+        "errors": errs,
+    }
+    for l, r in seeded.items():
+        if not r:
+            ctx.rep.error(f"seeded change {l} is not reported by {ctx.prop}")
+    al = {l: r for l, r in benign.items() if r}
+    if al:
+        ctx.rep.notes.append(f"behaviour-preserving refactorings that still raise an alarm (known limits): {al}")
 
 
 if __name__ == "__main__":
